@@ -653,7 +653,7 @@ Lemma gen_trust_total v :
   listlike v -> (forall l, py_iter v = Ok l -> Forall sized l) -> ok_or_valueerror (canonicalize_trust v).
 Proof.
   intros Hl Hs. apply not_other. intros c. rewrite gen_trust_spec. apply spec_list_total; [exact Hl|].
-  intros l Hi. specialize (Hs l Hi). induction Hs as [|x r Hx _ IH]; constructor; [|exact IH].
+  intros l Hi. specialize (Hs l Hi). clear Hi. induction Hs as [|x r Hx _ IH]; constructor; [|exact IH].
   intros c'. apply spec_trust_entry_total. exact Hx.
 Qed.
 
